@@ -46,6 +46,7 @@ type Contract struct {
 	Ensures  []*Clause
 	Modifies []*Clause
 	Covers   []*Clause
+	GhostSets []*Clause // "gf(o, name, T) := expr": ghost assignment performed at every return
 	Guards   map[string]*Clause // "name#n" -> condition that must hold when the n-th call through value `name` happens
 	Loops    map[int]*LoopSpec
 	Pure     bool
@@ -121,7 +122,7 @@ func fullKey(pkgPath, key string) string {
 var clauseKeywords = map[string]bool{
 	"func": true, "spec": true, "lemma": true, "props": true, "requires": true, "ensures": true,
 	"modifies": true, "loop": true, "invariant": true, "decreases": true, "pure": true, "trusted": true,
-	"maypanic": true, "cover": true, "guardcall": true, "ghost": true, "typeinv": true, "opt": true, "noverify": true, "package": true, "rec": true,
+	"maypanic": true, "cover": true, "guardcall": true, "ghost": true, "ghostset": true, "typeinv": true, "opt": true, "noverify": true, "package": true, "rec": true,
 }
 
 // ParseFile reads one contract file. pkgPath is the import path the file belongs to
@@ -247,6 +248,8 @@ func (cs *ContractSet) ParseFile(file, pkgPath string) error {
 				}
 			case "cover":
 				cur.Covers = append(cur.Covers, mk(rest))
+			case "ghostset":
+				cur.GhostSets = append(cur.GhostSets, mk(rest))
 			case "guardcall":
 				// guardcall name#n: expr
 				k := strings.Index(rest, ":")
